@@ -45,3 +45,28 @@ kernel('spike_py.B', SpikeProfile(), 'B', sizes_quick=sizes_ri(1, 2), sizes_thor
        bound_text='N1,N2 <= 2 (quick) / <= 3 (thorough), RI in {False,True}; all real spike times, MRTS >= 0')
 kernel('spike_pyx.B', SpikeProfile(PROF, 'spike_profile_cython', names=('t1', 't2')), 'B', sizes_quick=sizes_ri(1, 2),
        sizes_thorough=sizes_ri(1, 3), bound_text='N1,N2 <= 2 (quick) / <= 3 (thorough), RI in {False,True}')
+
+# ---- C03 / C04 / C16: coincidence window, SPIKE-Sync, order, directionality kernels
+from ..contracts.sync import GetTau, DiscreteProfile, CoincidenceSingle, DirectionalityProfile, SinglePass  # noqa
+
+TAU = 'pyspike/cython/cython_get_tau.pyx'
+DIRPY = 'pyspike/cython/directionality_python_backend.py'
+DIRPYX = 'pyspike/cython/cython_directionality.pyx'
+_tau_finder = [(a, b, i, j) for a in range(0, 3) for b in range(0, 3) for i in range(-1, a) for j in range(-1, b)]
+kernel('get_tau_py.P', GetTau(), 'P', finder=_tau_finder)
+kernel('get_tau_pyx.P', GetTau(TAU), 'P', finder=_tau_finder)
+
+_BT = 'N1,N2 <= 2 (quick) / <= 3 (thorough), empty trains included; all real spike times, max_tau >= 0, MRTS >= 0'
+for _nm, _c in (
+        ('sync_py', DiscreteProfile()),
+        ('sync_pyx', DiscreteProfile(PROF, 'coincidence_profile_cython')),
+        ('single_py', CoincidenceSingle()),
+        ('single_pyx', CoincidenceSingle(PROF, 'coincidence_single_profile_cython')),
+        ('order_py', DiscreteProfile(DIRPY, 'spike_train_order_profile_python', kind='order')),
+        ('order_pyx', DiscreteProfile(DIRPYX, 'spike_train_order_profile_cython', kind='order')),
+        ('dir_py', DirectionalityProfile()),
+        ('dir_pyx', DirectionalityProfile(DIRPYX, 'spike_directionality_profiles_cython')),
+        ('syncval_pyx', SinglePass(DIST, 'coincidence_value_cython', 'sync')),
+        ('orderval_pyx', SinglePass(DIRPYX, 'spike_train_order_cython', 'order')),
+        ('dirval_pyx', SinglePass(DIRPYX, 'spike_directionality_cython', 'directionality'))):
+    kernel(_nm + '.B', _c, 'B', sizes_quick=sizes(0, 2), sizes_thorough=sizes(0, 3), bound_text=_BT)
